@@ -23,12 +23,20 @@ FamGen == Fam(1, 1, 1, {"A", "B", "T", "u"}, None, {"g", "h", "G"}, IJK, {"i", "
 \* two leaves of rank 3 (and 2): transposition to the first term's order, products with several common indices
 FamPerm == Fam(2, 1, 2, {"T"}, None, None, IJK, None, None, None, None, None, None)
 FamPerm2 == Fam(2, 1, 2, {"T", "A"}, None, {"G"}, IJK, IJK, None, None, None, None, None)
+\* three leaves, only trees that follow the rules
+FamThreeV == [Fam(3, 3, 3, {"c", "a", "B"}, {"2"}, {"g"}, IJ, IJ, {"2"}, {"scope"}, None, None, None) EXCEPT !.VO = TRUE]
 \* three leaves
 FamThree == Fam(3, 3, 3, {"c", "a"}, {"2"}, {"sqr", "g"}, IJ, {"i"}, {"2"}, W2, None, None, None)
-\* everything (random walks)
-FamSim == Fam(4, 6, 3, {"c", "e", "a", "b", "u", "A", "B", "T"}, {"2", "3", "10", "0.5", ".5", "1.5", "0"},
-              {"sqr", "abs", "opposite", "g", "h", "G"}, {"i", "j", "k", "0", "1", "2"}, {"i", "j", "k", "0", "1"},
-              {"2", "3", "-1", "-2", "0"}, AllWraps, AllMuts, AllCors, {1})
+\* random walks: a narrow index alphabet (many valid trees), the wide one, rule breakers, corruptions
+SimNums == {"2", "3", "10", "0.5", ".5", "1.5", "0"}
+SimExps == {"2", "3", "-1", "-2", "0"}
+SimFuncs == {"sqr", "abs", "opposite", "g", "h", "G"}
+FamSimV == Fam(4, 6, 3, {"c", "e", "a", "b", "A", "B", "u"}, SimNums, SimFuncs, {"i", "j", "0"}, {"i", "j", "1"}, SimExps, AllWraps, None, None, {1})
+FamSimW == Fam(4, 6, 3, {"c", "e", "a", "b", "u", "A", "B", "T"}, SimNums, SimFuncs, {"i", "j", "k", "0", "1", "2"}, {"i", "j", "k", "0", "1"}, SimExps, AllWraps, None, None, {1})
+FamSimVO == [FamSimV EXCEPT !.VO = TRUE]
+FamSimWO == [FamSimW EXCEPT !.VO = TRUE]
+FamSimM == Fam(4, 6, 3, {"c", "a", "b", "A"}, {"2", "0.5"}, {"sqr", "g", "h"}, {"i", "j", "0"}, {"i", "j"}, {"2", "-1"}, AllWraps, AllMuts, None, None)
+FamSimC == Fam(4, 6, 3, {"c", "a", "b", "A"}, {"2", "0.5"}, {"sqr", "g", "h"}, {"i", "j", "0"}, {"i", "j"}, {"2", "-1"}, AllWraps, None, AllCors, None)
 \* tiny vocabularies for the spec mutants
 FamT1 == Fam(1, 0, 1, {"T"}, None, None, IJK, None, None, None, None, None, None)
 FamSmall == Fam(2, 2, 2, {"c", "a", "A"}, None, None, {"i"}, None, None, {"scope"}, None, None, None)
